@@ -37,6 +37,9 @@ type Path struct {
 
 func (p *Path) Probe(ctx context.Context) error {
 	path := p.pathManager.addPath(p, p.enablePath)
+	if path == nil {
+		return ErrPathClosed
+	}
 
 	p.pathManager.enqueueProbe(p)
 	nextProbeDur := p.initialRTT
@@ -96,11 +99,7 @@ func (p *Path) Close() error {
 	default:
 	}
 
-	if err := p.pathManager.removePath(p.id); err != nil {
-		return err
-	}
-	close(p.abandon)
-	return nil
+	return p.pathManager.removePath(p)
 }
 
 type pathOutgoing struct {
@@ -150,6 +149,14 @@ func (pm *pathManagerOutgoing) addPath(p *Path, enablePath func()) *pathOutgoing
 	pm.mx.Lock()
 	defer pm.mx.Unlock()
 
+	// The path might have been abandoned (Path.Close) before Probe got here.
+	// Registering it again would take a connection ID for it that is never retired.
+	select {
+	case <-p.abandon:
+		return nil
+	default:
+	}
+
 	// path might already exist, and just being re-probed
 	if existingPath, ok := pm.paths[p.id]; ok {
 		existingPath.validated = make(chan struct{})
@@ -173,31 +180,38 @@ func (pm *pathManagerOutgoing) enqueueProbe(p *Path) {
 	pm.scheduleSending()
 }
 
-func (pm *pathManagerOutgoing) removePath(id pathID) error {
-	if err := pm.removePathImpl(id); err != nil {
+func (pm *pathManagerOutgoing) removePath(path *Path) error {
+	if err := pm.removePathImpl(path); err != nil {
 		return err
 	}
 	pm.scheduleSending()
 	return nil
 }
 
-func (pm *pathManagerOutgoing) removePathImpl(id pathID) error {
+func (pm *pathManagerOutgoing) removePathImpl(path *Path) error {
 	pm.mx.Lock()
 	defer pm.mx.Unlock()
 
+	select {
+	case <-path.abandon: // closed concurrently
+		return nil
+	default:
+	}
+	id := path.id
 	if id == pm.activePath {
 		return errors.New("cannot close active path")
 	}
-	p, ok := pm.paths[id]
-	if !ok {
-		return nil
+	if p, ok := pm.paths[id]; ok {
+		// The connection ID taken for the first PATH_CHALLENGE stays assigned to the path
+		// after the path was validated (validation clears pathChallenges).
+		if len(p.pathChallenges) > 0 || p.isValidated {
+			pm.retireConnID(id)
+		}
+		delete(pm.paths, id)
 	}
-	// The connection ID taken for the first PATH_CHALLENGE stays assigned to the path
-	// after the path was validated (validation clears pathChallenges).
-	if len(p.pathChallenges) > 0 || p.isValidated {
-		pm.retireConnID(id)
-	}
-	delete(pm.paths, id)
+	// Mark the path as abandoned while holding the mutex: a concurrent Probe either
+	// registered the path before (then it was removed above), or sees that it is abandoned.
+	close(path.abandon)
 	return nil
 }
 
